@@ -88,9 +88,6 @@ package goose
 //@ func sortedFiles$1
 //@   trusted_requires [sort.Slice passes valid indices] 0 <= i && i < len(*flatFiles) && 0 <= j && j < len(*flatFiles)
 //@   may_reject
-//@ func getFfi$2
-//@   requires [map allocated by getFfi] *seenFfis != nil
-//@   may_reject
 //@ func (Ctx).constDecl
 //@   requires [called for const declarations] d.Tok == token.CONST
 //@   may_reject
@@ -98,8 +95,13 @@ package goose
 //@   requires [called for var declarations] d.Tok == token.VAR
 //@   may_reject
 //@ func (Ctx).imports
+//@   also C02 C08
 //@   requires [called with the specs of an import declaration] forall i int :: 0 <= i && i < len(d) ==> typeis(d[i], *ast.ImportSpec)
 //@   may_reject
+//@   ensures [renamed imports are rejected] forall i int :: 0 <= i && i < len(d) ==> d[i].(*ast.ImportSpec).Name == nil
+//@   ensures [at most one Require per import] len(result) <= len(d)
+//@   loop 1 invariant [imports so far are not renamed] forall i int :: 0 <= i && i <= rangeindex ==> d[i].(*ast.ImportSpec).Name == nil
+//@   loop 1 invariant [at most one Require per import so far] len(decls) <= rangeindex + 1
 
 // ---- syntactic guards: returning normally implies the construct has a supported shape (C02) -----
 
@@ -229,9 +231,11 @@ package goose
 // immutable package graph). The frame is not an SMT obligation here: it is
 // established by the store sweep of property C06 over the static call graph.
 //@ func (TranslationConfig).translatePackage
+//@   also C08
 //@   may_reject
 //@   modifies fresh
 //@   noframe
+//@   ensures [header and footer are those of one FFI prelude, or the generic section with its footer] (result.0.ImportHeader == "" && result.0.Footer == "") || (result.0.ImportHeader == "Section code.\nContext `{ext_ty: ext_types}.\nLocal Coercion Var' s: expr := Var s." && result.0.Footer == "\nEnd code.\n") || (result.0.Footer == "" && exists f string :: result.0.ImportHeader == "From Perennial.goose_lang Require Import ffi." + f + "_prelude.")
 //@ assume func github.com/pkg/errors.New (message)
 //@   ensures result != nil
 
@@ -258,3 +262,28 @@ package goose
 //@ func (Ctx).structLiteral
 //@   may_reject
 //@   ensures [dependency on the struct recorded] depset[ref(ctx.dep)][info.name]
+
+// ---- FFI selection and header (C08) ---------------------------------------------------------------
+// packages.Visit is not under contract (x/tools): that it runs `pre` and `post` over the import
+// graph as documented is assumed. What is proved: the walk stops at FFI packages, each visited
+// FFI package contributes exactly its mapped FFI, two FFIs never yield a header, none gives "none".
+
+//@ props C07 C08
+
+//@ func getFfi$1
+//@   ensures [the walk does not descend into FFI packages] result == !has(ffiMapping, pkg.PkgPath)
+//@ func getFfi$2
+//@   requires [map allocated by getFfi] *seenFfis != nil
+//@   ensures [an FFI package contributes its FFI] has(ffiMapping, pkg.PkgPath) ==> has(*seenFfis, ffiMapping[pkg.PkgPath])
+//@   ensures [nothing is removed] forall v string :: old(has(*seenFfis, v)) ==> has(*seenFfis, v)
+//@   ensures [nothing else is added] forall v string :: has(*seenFfis, v) && !old(has(*seenFfis, v)) ==> has(ffiMapping, pkg.PkgPath) && v == ffiMapping[pkg.PkgPath]
+//@   modifies map(*seenFfis)
+//@ func getFfi
+//@   may_panic
+//@   ensures_local [the unique FFI seen, or none] result == "none" || has(seenFfis, result)
+//@   ensures_local [two different FFIs are refused] len(seenFfis) <= 1
+//@   ensures_local [none only if no FFI was seen] result == "none" ==> len(seenFfis) == 0 || has(seenFfis, "none")
+//@   noframe
+//@ func ffiHeaderFooter
+//@   ensures [no FFI: generic ext_types section with its closing footer] ffi == "none" ==> result.0 == "Section code.\nContext `{ext_ty: ext_types}.\nLocal Coercion Var' s: expr := Var s." && result.1 == "\nEnd code.\n"
+//@   ensures [FFI prelude import, no footer] ffi != "none" ==> result.0 == "From Perennial.goose_lang Require Import ffi." + ffi + "_prelude." && result.1 == ""
